@@ -1,12 +1,18 @@
 pub mod c01;
+pub mod c12;
+pub mod c15;
+pub mod c16;
 
 use crate::core::run::{Check, Tier};
 
-pub const ALL: [&str; 1] = ["C01"];
+pub const ALL: &[&str] = &["C01", "C12", "C15", "C16"];
 
 pub fn build(id: &str, tier: Tier) -> Option<Check<'static>> {
     Some(match id {
         "C01" => c01::build(tier),
+        "C16" => c16::build(tier),
+        "C15" => c15::build(tier),
+        "C12" => c12::build(tier),
         _ => return None,
     })
 }
